@@ -87,6 +87,7 @@ def run(ctx):
   ctx.need('C01.R1', n, 12, 'root-routine functions')
 
   newton(ctx)
+  regularised_input(ctx)
   lobpcg_path(ctx)
   diagnostics(ctx)
   mat_power(ctx)
@@ -96,6 +97,19 @@ def run(ctx):
   siblings(ctx)
   forwarding(ctx)
 
+
+
+def _is_epilogue(sa):
+  """sa = select_arms(t): the all-padding epilogue is exactly `where(padding_start == 0, 0, X)` (canonical polarity:
+  a `!=` test arrives here as `==` with the arms swapped)"""
+  if sa is None or not is_const(strip_casts(sa[2]), 0.0, 0):
+    return False
+  c = sa[1]
+  if c.op != 'cmp' or c.args[0] != '==':
+    return False
+  a, b = strip_casts(c.args[1]), strip_casts(c.args[2])
+  is_ps = lambda t: t.op == 'sym' and t.args[-1] == 'padding_start'
+  return (is_ps(a) and is_const(b, 0)) or (is_ps(b) and is_const(a, 0))
 
 
 def _while_loops(m, outer):
@@ -307,7 +321,7 @@ def newton(ctx):
       x = strip_casts(rw.args[0])
       sa = select_arms(x)
       if pad:
-        ok = sa is not None and is_const(strip_casts(sa[2]), 0.0, 0)
+        ok = _is_epilogue(sa)
         ctx.ob('C01.R4', outer.short, f'epilogue.value[size1,rel={rel}]', ok,
                'all-padding epilogue where(padding_start == 0, 0, X) missing on the returned matrix',
                ctx.loc(outer), sample='where(padding_start == 0, 0, X)')
@@ -328,9 +342,16 @@ def newton(ctx):
           floor_ok = False
           mx = [c for c in walk(ridge) if is_ext_call(c, 'jax.numpy.maximum')]
           if rel:
-            ok = ok and len(pcalls) >= 1 and bool(mx)
+            ok = ok and len(pcalls) == 1 and bool(mx)
           else:
             ok = ok and not pcalls and bool(mx) and any(is_const(a, 1.0) for a in mx[0].args[1])
+          if ok:
+            # the exact formula: ridge_epsilon * max(max_ev, floor), floor a small positive constant
+            env_r = {'ridge_epsilon': sym('param', outer.short, 'ridge_epsilon'),
+                     'max_ev': evw.subscript(pcalls[0].result, const(1)) if rel else const(1.0)}
+            floors = [strip_casts(a_) for c_ in mx for a_ in c_.args[1] if is_const(strip_casts(a_)) and isinstance(cval(strip_casts(a_)), float)
+                      and 0.0 < cval(strip_casts(a_)) <= 1e-6]
+            ok = any(cmpr.same(ridge, spec_term(evw, 'ridge_epsilon * jnp.maximum(max_ev, floor)', dict(env_r, floor=f_))) for f_ in floors)
       ctx.ob('C01.N4', outer.short, f'size1.closed_form[rel={rel},pad={pad}]', ok,
              f'1x1 branch must return (matrix + ridge_epsilon*max(max_ev, floor)) ** (-1/p); got `{cmpr.fmt(x)}`',
              ctx.loc(outer), sample='X = (a + ridge)^(-1/p) for n = 1')
@@ -463,13 +484,13 @@ def eigh_routine(ctx):
       err = strip_casts(met['inverse_pth_root_errors'])
       if pad:
         sa = select_arms(x)
-        ok = sa is not None and is_const(strip_casts(sa[2]), 0.0, 0)
+        ok = _is_epilogue(sa)
         ctx.ob('C01.R4', fi.short, f'epilogue.value[rel={rel}]', ok,
                'all-padding epilogue where(padding_start == 0, 0, X) missing on the returned matrix', ctx.loc(fi),
                sample='where(padding_start == 0, 0, X)')
         x = strip_casts(sa[3]) if sa else x
         se = select_arms(err)
-        ok = se is not None and is_const(strip_casts(se[2]), 0.0, 0)
+        ok = _is_epilogue(se)
         ctx.ob('C01.R4', fi.short, f'epilogue.error[rel={rel}]', ok,
                'all-padding epilogue where(padding_start == 0, 0, error) missing on the error', ctx.loc(fi),
                sample='where(padding_start == 0, 0, err)')
@@ -532,6 +553,66 @@ def eigh_routine(ctx):
              ctx.loc(fi), sample='ridge = eps * max(max_ev, floor)')
 
 
+def regularised_input(ctx):
+  """E3: what the eigendecomposition-based routines decompose is A + d I with d = ridge_epsilon * max(max_ev, floor),
+  max_ev the power-iteration estimate under relative scaling and 1 otherwise; E2 for the low-rank sibling: its reported
+  error is the residual of that same decomposition."""
+  m = ctx.model
+  cmpr = Comparer()
+  for q in ('matrix_inverse_pth_root_eigh', '_low_rank_root'):
+    fi = m.func(MOD, q)
+    ctx.analysed(fi)
+    for pad in (True, False):
+      for rel in (True, False):
+        ev = evaluator(m, opaque={'power_iteration', '_low_rank_pack'}, decide=_decider(padding=pad, rel=rel, negrank=False))
+        r = ev.run(fi)
+        ctx.evaluations += 1
+        eighs = list({c for c in walk(r) if is_ext_call(c, 'jax.numpy.linalg.eigh')})
+        ctx.need('C01.E3', len(eighs), 1, f'eigh call in {q}')
+        eg = eighs[0]
+        reg = eg.args[1][0]
+        pcalls = [c for c in ev.calls if c.callee.endswith('.power_iteration')]
+        env = {'matrix': sym('param', fi.short, 'matrix'), 'padding_start': sym('param', fi.short, 'padding_start'),
+               'ridge_epsilon': sym('param', fi.short, 'ridge_epsilon'), 'error_tolerance': sym('param', fi.short, 'error_tolerance')}
+        if rel:
+          if len(pcalls) != 1:
+            ctx.ob('C01.E3', fi.short, f'ridge scale [pad={pad},rel={rel}]', False,
+                   f'relative ridge scaling needs exactly one power_iteration estimate; found {len(pcalls)}', ctx.loc(fi))
+            continue
+          env['max_ev'] = ev.subscript(pcalls[0].result, const(1))
+        else:
+          env['max_ev'] = const(1.0)
+        ix = '(jnp.arange(matrix.shape[0]) < padding_start)'
+        M = f'(matrix * {ix}[jnp.newaxis, :] * {ix}[:, jnp.newaxis])' if pad else 'matrix'
+        I = f'(jnp.eye(matrix.shape[0]) * {ix})' if pad else 'jnp.eye(matrix.shape[0])'
+        exp = spec_term(ev, f'{M} + ridge_epsilon * jnp.maximum(max_ev, error_tolerance) * {I}', env)
+        ctx.ob('C01.E3', fi.short, f'decomposed matrix is A + d I [pad={pad},rel={rel}]', cmpr.same(reg, exp) and (rel or not pcalls),
+               f'the eigendecomposition must be taken of matrix + ridge_epsilon * max(max_ev, error_tolerance) * identity '
+               f'(max_ev from power_iteration iff relative_matrix_epsilon, else 1); got `{cmpr.fmt(reg)[:300]}`', ctx.loc(fi),
+               sample='eigh(A + eps * max(max_ev, tol) * I)')
+        if q == '_low_rank_root':
+          met = rec_fields(r.args[1]) if r.op == 'tuple' and len(r.args) == 2 else None
+          if met is None:
+            raise AnalysisError('_low_rank_root does not return (packed, TrainingMetrics)')
+          err = strip_casts(met['inverse_pth_root_errors'])
+          if pad:
+            se = select_arms(err)
+            err = strip_casts(se[3]) if se else err
+          env2 = {'e0': T('sub', eg, const(0)), 'u': T('sub', eg, const(1)), 'reg': reg}
+          src = 'jnp.matmul(u.T, jnp.matmul(reg, u)) - jnp.diag(e0)'
+          if pad:
+            masks = [c for c in walk(err) if is_ext_call(c, 'jax.numpy.flip') and not any(y is eg for y in walk(c))]
+            if not masks:
+              ctx.ob('C01.E2', fi.short, f'error[pad={pad},rel={rel}]', False, 'with padding the residual must be masked by the flipped mask', ctx.loc(fi))
+              continue
+            env2['mask'] = masks[0]
+            src = '(jnp.matmul(u.T, jnp.matmul(reg, u)) - jnp.diag(e0 * mask)) * mask'
+          exp_err = spec_term(ev, f'jnp.max(jnp.abs({src}))', env2)
+          ctx.ob('C01.E2', fi.short, f'error[pad={pad},rel={rel}]', cmpr.same(err, exp_err),
+                 f'error must be max|u^T A u - diag(e)| of the same decomposition; got `{cmpr.fmt(err)[:300]}`', ctx.loc(fi),
+                 sample='err = max|U^T A U - diag(e)|')
+
+
 def provenance(ctx):
   """R2: error figure and returned matrix share their defining computation."""
   m = ctx.model
@@ -569,9 +650,9 @@ def provenance(ctx):
                ctx.loc(fi), sample=f'error and X share the {kind} node')
         if pad:
           se = select_arms(strip_casts(err))
-          okp = se is not None and is_const(strip_casts(se[2]), 0.0, 0)
+          okp = _is_epilogue(se)
           sx = select_arms(strip_casts(x))
-          okx = sx is not None and is_const(strip_casts(sx[2]), 0.0, 0)
+          okx = _is_epilogue(sx)
           ctx.ob('C01.R4', fi.short, f'epilogue[{q},rel={rel}]', okp and okx,
                  'all-padding epilogue (where(padding_start == 0, 0, .)) must guard both value and error',
                  ctx.loc(fi), sample='epilogue on value and error')
@@ -733,6 +814,17 @@ def lobpcg_path(ctx):
         mat = U.args.get('matrix', NONE)
         okm = mat.op == 'bin' and mat.args[0] == '+' and not any(y is L for y in walk(mat.args[1])) and \
             any(is_ext_call(y, 'jax.numpy.maximum') for y in walk(mat.args[2])) and any(is_ext_call(y, 'jax.numpy.eye') for y in walk(mat.args[2]))
+        if okm:
+          # exactly: masked input + ridge_epsilon * max(max_ev, floor) * (masked) identity, max_ev = max(eigvals) | 1
+          env_m = {'matrix': sym('param', fi.short, 'matrix'), 'padding_start': sym('param', fi.short, 'padding_start'),
+                   'ridge_epsilon': sym('param', fi.short, 'ridge_epsilon'), 'eigvals': eigvals}
+          ix_ = '(jnp.arange(matrix.shape[0]) < padding_start)'
+          M_ = f'(matrix * {ix_}[jnp.newaxis, :] * {ix_}[:, jnp.newaxis])' if pad else 'matrix'
+          I_ = f'(jnp.eye(matrix.shape[0]) * {ix_})' if pad else 'jnp.eye(matrix.shape[0])'
+          mev = 'jnp.max(eigvals)' if rel else '1.0'
+          floors = [strip_casts(a_) for c_ in walk(mat.args[2]) if is_ext_call(c_, 'jax.numpy.maximum') for a_ in c_.args[1]
+                    if is_const(strip_casts(a_)) and isinstance(cval(strip_casts(a_)), float) and 0.0 < cval(strip_casts(a_)) <= 1e-6]
+          okm = any(cmpr.same(mat, spec_term(ev, f'{M_} + ridge_epsilon * jnp.maximum({mev}, floor) * {I_}', dict(env_m, floor=f_))) for f_ in floors)
         ctx.ob('C01.N5', fi.short, f'unconditioned reference matrix {tag}', okm,
                'the reference for the reported error must be original_matrix + ridge * identity (not the deflated matrix)', ctx.loc(fi),
                sample='original_matrix + ridge_epsilon * identity')
